@@ -194,7 +194,10 @@ def _part_A(shard):
     evals = nontriv = 0
     if backend != "cuda":
         k = kern.get_kernel(backend, cross, order)
-    for w in kern.omegas(L):
+    ws = kern.omegas(L)
+    if backend == "cuda" and cross and L >= 4:
+        ws = [ws[0], ws[1], ws[4 if len(ws) > 4 else -1], ws[-1]]   # simulator cost: DC, Nyquist, a fractional bin, near-edge
+    for w in ws:
         re, im = est.rows_dft(X, win, w, order)
         re = re.astype(np.float64)
         im = im.astype(np.float64)
@@ -241,7 +244,7 @@ def _part_A(shard):
     # CUDA host wrappers on a few K=1 cases (the launches above bypass them)
     if backend == "cuda":
         kw = kern.get_kernel("cuda", cross, order)
-        w = kern.omegas(L)[-1]
+        w = ws[-1]
         for t in sorted({0, M // 2, M - 1, (M * M - 1) if cross else M - 1}):
             a, b = (t // M, t % M) if cross else (t, t)
             case = {"part": "A1", "backend": "cuda", "L": L, "win": shard["win"], "w": float(w), "order": order,
